@@ -3,9 +3,14 @@ from vlib import common as C
 from vlib import dcheck, directed
 
 LEVEL = "proof"
+DRIVERS = ["daemon", "alloc"]
 
 
 def run(ctx, out):
     dcheck.run_property(ctx, out, "C07", "mon_c07", n_quick=300, n_thorough=5000,
                         gen_kw=dict(ws_share=0.4, batches=0.1, malformed=0.06, faults=True),
                         directed=directed.regressions() + directed.batch_orders() + directed.close_positions(ctx.thorough))
+    from vlib.props import alloc_tie
+    alloc_tie.run_alloc_tie(ctx, out)
+    out.assumptions += ["allocator: the OS never grants a request of 2^63 bytes or more (hypothesis OsOk of cap_respected)",
+                        "timer ledger: address tokens are '_'-free and fewer than 2^32 requests per run (the hypotheses of C03's rid_unique)"]
